@@ -150,6 +150,10 @@ impl<C: Cursor> Cursor for BoundsCursor<C> {
         if self.bounds == Bounds::BeforeStart {
             self.seek_to_first()?;
             self.next()?;
+        } else if self.bounds == Bounds::AfterEnd || self.cursor.key().is_none() {
+            // Leave the underlying cursor just past the end bound so that prev() steps back to the
+            // last key within bounds rather than to whatever precedes the sought key.
+            self.seek_to_last()?;
         }
         Ok(())
     }
